@@ -14,13 +14,13 @@ BUDGET = {'quick': 150, 'thorough': 1800}
 CHUNK = 2
 RULE = ('Cases: files of 2..8 samples (C07 sample styles, so that some k-mers are private to deleted samples); for n<=5 '
         'every non-empty proper subset is deleted (exhaustive over subsets), random subsets above; names given on the command '
-        'line or in a names file (one per line; with/without trailing newline), in place or with -o.  '
+        'line or in a names file (one per line; with/without trailing newline; with blank lines between names, where a clean refusal is accepted as well as the exact deletion), in place or with -o.  '
         'The result is compared with a `ska build` of the remaining samples (differential) and with the model; a quarter of the files first pass through `ska weed --filter-ambig-as-missing` with a one-sample threshold (stored files with a history; model only).  Refusal cases '
         '(unknown name, all names, all names with one of them repeated) must exit non-zero and leave the file byte-identical.  Non-trivial: at least one k-mer '
         'disappears or at least two non-adjacent columns are removed; distinct = distinct (k, mode, samples, subset, route).')
 ASSUMPTIONS = ['sample names are [A-Za-z0-9_]+ ; a share of names end in .fa/.fasta to exercise name handling',
                'the build of the remaining samples is a run of the same binary (differential); the model is independent']
-REQUIRED = {t: ['route:cli', 'route:file', 'route:file-no-trailing-newline', 'inplace', 'with-o',
+REQUIRED = {t: ['route:cli', 'route:file', 'route:file-no-trailing-newline', 'route:file-blank-lines', 'inplace', 'with-o',
                 'refuse:unknown', 'refuse:all', 'refuse:all-with-repeat', 'kmers_removed', 'nonadjacent_deletions', 'width64', 'width128', 'pretreated_files']
             for t in ('quick', 'thorough')}
 
@@ -103,7 +103,7 @@ def run_case(desc, ctx):
         original = open(ctx.path('all.skf'), 'rb').read()
         for dn in (subsets if variant == 'rel' else subsets[:2]):
             keep = [i for i in range(ns) if i not in dn]
-            route = rng.choice(['cli', 'file', 'file-no-trailing-newline'])
+            route = rng.choice(['cli', 'file', 'file-no-trailing-newline', 'file-blank-lines'])
             inplace = rng.random() < 0.5
             ctx.write('work.skf', original)
             dnames = [names[i] for i in dn]
@@ -114,6 +114,12 @@ def run_case(desc, ctx):
                 txt = '\n'.join(dnames) + '\n'
                 if route == 'file-no-trailing-newline':
                     txt = txt[:-1]
+                if route == 'file-blank-lines':
+                    lines = txt.split('\n')[:-1]
+                    lines.insert(rng.randint(1, len(lines)), rng.choice(['', '  ', '\t']))      # never before the first name only: anywhere after it
+                    if rng.random() < 0.5:
+                        lines.insert(0, '')
+                    txt = '\n'.join(lines) + '\n'
                 ctx.write('names.txt', txt)
                 src = ['-f', ctx.path('names.txt')]
             oname = rng.choice(['out', 'out', 'kept.v2'])                   # output prefixes with and without dots
@@ -132,6 +138,14 @@ def run_case(desc, ctx):
                 res.count('route:' + route)
                 res.count('inplace' if inplace else 'with-o')
             sig = 'C08:%s' % ('file' if route != 'cli' else 'cli')
+            if route == 'file-blank-lines' and pd.returncode != 0:
+                # whether blank lines are tolerated is not stated: a refusal is fine if it leaves the file alone
+                if open(ctx.path('work.skf'), 'rb').read() != original or (not inplace and os.path.exists(result_file)):
+                    res.violate(sig + ':blank-refused-but-changed', 'names file with a blank line: exit %d but a file was written' % pd.returncode,
+                                {'names_file': txt})
+                else:
+                    res.count('blank_lines_refused_cleanly')
+                continue
             if pd.returncode != 0:
                 res.violate(sig + ':failed', 'k=%d delete %s via %s failed: %s' % (k, dnames, route, pd.stderr.strip()[-160:]),
                             {'names': names, 'delete': dnames, 'route': route, 'names_file': None if route == 'cli' else txt})
